@@ -81,8 +81,8 @@ func refRecvBody(sc Scn, src, view fsmodel.Tree, srcDir string, res *RefRecvRes)
 	want := memfs.Stats(view)
 	content := map[int][]byte{}
 	for i, n := range func() fsmodel.Tree { t := view.Clone(); t.Sort(); return t }() {
-		if n.Kind == fsmodel.File {
-			content[i] = n.Data
+		if n.Kind == fsmodel.File || n.Kind == fsmodel.Socket {
+			content[i] = n.Data // (a socket is announced as an empty regular file; it cannot be opened and is served empty)
 		}
 	}
 	return func(t *testing.T, s *Stepper, x *Exec) {
@@ -556,6 +556,16 @@ func driveC06(p *Pool, r *evid.Run) {
 	exploreAll(p, r, "C06", v2, 1, 0)
 	r.Add("scenarios", int64(len(v2)))
 
+	// V1 plus a socket and a root entry named like the listing file: ids 0 .fsutil-metadata, 1 a, 3 b/c, 4 b/sock, 7 z
+	var odd []Scn
+	for _, scr := range [][]int{{0, 1, 3, 4, 7}, {7, 4, 3, 1, 0}, {4}, {7, 0}, {0}, {}} {
+		for _, pol := range []string{"run", "recv"} {
+			odd = append(odd, Scn{Kind: "refrecv", Src: "v1odd", Cap: 2, Policy: pol, Script: scr, SelectAlts: true, DiskSrc: true},
+				Scn{Kind: "refrecv", Src: "v1odd", Cap: 64, Policy: pol, Script: scr, SelectAlts: true})
+		}
+	}
+	exploreAll(p, r, "C06", odd, 1, 0)
+	r.Add("scenarios", int64(len(odd)))
 	// one spawn site at a time arbitrarily slow (sender's walker, receive loop, workers; the reference peer's threads)
 	probe6 := exploreAll(p, r, "C06", []Scn{{Kind: "refrecv", Src: "v1", Cap: 64, Policy: "rr", Script: []int{0, 2, 3}, SelectAlts: true, Progress: true}}, 0, 0)
 	if len(probe6) > 0 && probe6[0] != nil {
